@@ -222,6 +222,13 @@ func c11CheckOps(c c11OpsCase) h.Result {
 	chk("ExpandedRistrettoPoint.Point", eP.Point(), pr)
 	chk("SetExpanded", np().SetExpanded(eP), pr)
 	chk("ExpandedDoubleScalarMulBasepointVartime", np().ExpandedDoubleScalarMulBasepointVartime(s1, eP, s2), dbl)
+	// an expanded point that held another point before
+	eP2 := NewExpandedRistrettoPoint(Q)
+	if ret := eP2.SetRistrettoPoint(P); ret != eP2 {
+		r.Fail("ExpandedRistrettoPoint.SetRistrettoPoint:wrong-return", "")
+	}
+	chk("ExpandedRistrettoPoint.Point(reused)", eP2.Point(), pr)
+	chk("ExpandedDoubleScalarMulBasepointVartime(reused)", np().ExpandedDoubleScalarMulBasepointVartime(s1, eP2, s2), dbl)
 
 	// --- triple-base check: delta*(t1*P + t2*B - C), delta invertible: identity iff t1*P + t2*B = C
 	t1i, t2i := ref.FromLE(c.T1), ref.FromLE(c.T2)
